@@ -1,16 +1,20 @@
 (** C14 — Field splitting cuts exactly at unquoted IFS characters and never inside quotes. *)
-From GoSh Require Import Base.Bytes Base.Outcome Store.Env Expand.Expand Expand.Spec Expand.SplitProofs.
+From GoSh Require Import Base.Bytes Base.Outcome Store.Env Expand.Expand Expand.Spec Expand.SplitProofs Expand.SplitRefine.
 
-(** Full statement on the model: for every IFS value and every field whose unquoted text is valid
-    UTF-8, splitting, dropping the empty unquoted pieces and removing quotes gives exactly the
-    pieces obtained by cutting at every unquoted IFS character and keeping those that contain a
-    character or a quoted part ([split_spec], written from the property text).
-    Kept in full; decided on every run by the oracle on the implementation's answers and by the
-    model correspondence (exhaustive words of <= 4 (quick) / 6 (thorough) segments x 7 IFS settings). *)
-Definition C14_split_refines_spec_statement : Prop :=
+(** Full statement on the model: for every IFS value and every field (valid UTF-8 or not),
+    splitting with expand.go's state machine (byte offsets, ws flag, trailing-field rule), dropping
+    the empty unquoted pieces and removing quotes gives exactly the pieces obtained by cutting at
+    every unquoted IFS character and keeping those that contain a character or a quoted part
+    ([split_spec], written from the property text): quoted text is never cut, a quoted part always
+    contributes, no character is lost or reordered, no unquoted IFS character survives.
+    The model is compared with ExecEnv.Expand on every run (exhaustive words of <= 4 (quick) / 6
+    (thorough) segments x IFS settings, invalid UTF-8 included). *)
+Theorem C14_split_refines_spec :
   forall e f, split_model e f = Ok (split_spec (ifs_value e) f).
+Proof. exact split_refines_spec. Qed.
+Print Assumptions C14_split_refines_spec.
 
-(** Proved so far. *)
+(** Corollaries kept from earlier rounds. *)
 Theorem C14_partial_quoted_text_is_never_cut :
   forall e f, all_quoted f = true -> f <> [] -> split_field e f = Ok [f].
 Proof. exact quoted_never_split. Qed.
